@@ -5,47 +5,52 @@
    the next quiescent point has released both halves of the connection.  "Observed" is logged by the
    harness pipes at the moment the library's read or write returned the end / the error.         *)
 EXTENDS DeliveryAbs, TraceCommon
-VARIABLES l, scen, viol, obs, how, relR, relW, lastFault, obsAtCall, incall, mayErr, faulted, final, super
-\* final: the scenario's last quiescent point has passed (the driver drops the socket next); super: connections superseded by a newer one of the same identity
-tvars == <<avars, l, scen, viol, obs, how, relR, relW, lastFault, obsAtCall, incall, mayErr, faulted, final, super>>
-lv == <<obs, how, relR, relW, lastFault, obsAtCall, incall, mayErr, faulted, final, super>>
+VARIABLES l, scen, viol, obs, how, relR, relW, lastFault, obsAtCall, incall, mayErr, faulted, final, super, infl
+\* final: the scenario's last quiescent point has passed (the driver drops the socket next); super: connections superseded by a newer one of the same identity;
+\* infl: registrations in progress that announced an identity, as <<connection, identity>>
+tvars == <<avars, l, scen, viol, obs, how, relR, relW, lastFault, obsAtCall, incall, mayErr, faulted, final, super, infl>>
+lv == <<obs, how, relR, relW, lastFault, obsAtCall, incall, mayErr, faulted, final, super, infl>>
 E == Rec[l]
 Flag(code) == Report(scen, code, l) /\ viol' = viol \cup {code}
 NoFlag == UNCHANGED viol
 Step(evname) == l <= NRec /\ E.ev = evname /\ l' = l + 1
-TInit == AInit /\ l = 1 /\ scen = 0 /\ viol = {} /\ obs = {} /\ how = EmptyMap /\ relR = {} /\ relW = {} /\ lastFault = "none" /\ obsAtCall = {} /\ incall = FALSE /\ mayErr = {} /\ faulted = {} /\ final = FALSE /\ super = {}
+TInit == AInit /\ l = 1 /\ scen = 0 /\ viol = {} /\ obs = {} /\ how = EmptyMap /\ relR = {} /\ relW = {} /\ lastFault = "none" /\ obsAtCall = {} /\ incall = FALSE /\ mayErr = {} /\ faulted = {} /\ final = FALSE /\ super = {} /\ infl = {}
 TReset == Step("reset") /\ scen' = E.scen /\ stype' = E.sock /\ conn' = {} /\ ident' = <<>> /\ pend' = <<>> /\ cut' = <<>> /\ credit' = 0
-          /\ obs' = {} /\ how' = EmptyMap /\ relR' = {} /\ relW' = {} /\ lastFault' = "none" /\ obsAtCall' = {} /\ incall' = FALSE /\ mayErr' = {} /\ faulted' = {} /\ final' = FALSE /\ super' = {} /\ UNCHANGED viol
+          /\ obs' = {} /\ how' = EmptyMap /\ relR' = {} /\ relW' = {} /\ lastFault' = "none" /\ obsAtCall' = {} /\ incall' = FALSE /\ mayErr' = {} /\ faulted' = {} /\ final' = FALSE /\ super' = {} /\ infl' = {} /\ UNCHANGED viol
 TAttachRet == Step("attach_ret") /\ UNCHANGED <<scen, obs, how, relR, relW, lastFault, obsAtCall, incall, mayErr, faulted, final>> /\ NoFlag /\
-   (IF E.res = "ok" THEN DoAdmit(E.c, E.id) /\ super' = (IF Fld(E, "auto", TRUE) THEN super ELSE super \cup {c \in conn : ident[c] = E.id})
+   infl' = {p \in infl : p[1] # E.c} /\
+   (IF E.res = "ok" THEN DoAdmit(E.c, E.id) /\ super' = (IF Fld(E, "auto", TRUE) THEN super
+                                                         ELSE super \cup {c \in conn : ident[c] = E.id}
+                                                                    \* another connection is registering under this identity right now: it may take this one's place
+                                                                    \cup (IF \E p \in infl : p[1] # E.c /\ p[2] = E.id THEN {E.c} ELSE {}))
     ELSE UNCHANGED <<avars, super>>)
 TWrote == Step("peer_wrote") /\ UNCHANGED <<scen, lv>> /\ NoFlag /\ DoWrote(E.c, E.m)
 \* a connection that ends may surface ONE recv error, however many fault events (close, reset, broken pipe) it suffers
 Allow(c) == mayErr' = (IF c \in faulted THEN mayErr ELSE mayErr \cup {c}) /\ faulted' = faulted \cup {c}
-TBytes == Step("peer_bytes") /\ UNCHANGED <<stype, conn, ident, pend, cut, credit, scen, obs, how, relR, relW, lastFault, obsAtCall, incall, final, super>> /\ Allow(E.c) /\ NoFlag
-TCut == Step("peer_cut") /\ UNCHANGED <<scen, obs, how, relR, relW, obsAtCall, incall, final, super>> /\ NoFlag /\ DoCut(E.c, IF E.kind = "eof" THEN "eof" ELSE "err") /\ lastFault' = E.kind /\ Allow(E.c)
-TPipe == Step("pipe") /\ UNCHANGED <<scen, obs, how, relR, relW, obsAtCall, incall, final, super>> /\ NoFlag /\
+TBytes == Step("peer_bytes") /\ UNCHANGED <<stype, conn, ident, pend, cut, credit, scen, obs, how, relR, relW, lastFault, obsAtCall, incall, final, super, infl>> /\ Allow(E.c) /\ NoFlag
+TCut == Step("peer_cut") /\ UNCHANGED <<scen, obs, how, relR, relW, obsAtCall, incall, final, super, infl>> /\ NoFlag /\ DoCut(E.c, IF E.kind = "eof" THEN "eof" ELSE "err") /\ lastFault' = E.kind /\ Allow(E.c)
+TPipe == Step("pipe") /\ UNCHANGED <<scen, obs, how, relR, relW, obsAtCall, incall, final, super, infl>> /\ NoFlag /\
    IF E.what = "break" THEN DoCut(E.c, "err") /\ lastFault' = "wbreak" /\ Allow(E.c) ELSE UNCHANGED <<avars, lastFault, mayErr, faulted>>
-TObserved == Step("observed") /\ UNCHANGED <<avars, scen, relR, relW, lastFault, obsAtCall, incall, mayErr, faulted, final, super>> /\ NoFlag
+TObserved == Step("observed") /\ UNCHANGED <<avars, scen, relR, relW, lastFault, obsAtCall, incall, mayErr, faulted, final, super, infl>> /\ NoFlag
    /\ obs' = obs \cup {E.c} /\ how' = IF E.c \in DOMAIN how THEN how ELSE Put(how, E.c, E.how)
 \* the socket lets go of a connection: demanded after its end was observed, fine when a newer connection of the same identity
 \* superseded it or the scenario is over (the driver drops the socket) - but a connection nothing happened to must stay
-TReleased == Step("released") /\ UNCHANGED <<avars, scen, obs, how, lastFault, obsAtCall, incall, mayErr, faulted, final, super>>
+TReleased == Step("released") /\ UNCHANGED <<avars, scen, obs, how, lastFault, obsAtCall, incall, mayErr, faulted, final, super, infl>>
    /\ relR' = (IF E.half = "r" THEN relR \cup {E.c} ELSE relR) /\ relW' = (IF E.half = "w" THEN relW \cup {E.c} ELSE relW)
    /\ IF E.c \in conn /\ E.c \notin faulted /\ E.c \notin super /\ ~final THEN Flag("C16/healthy-connection-released:" \o stype) ELSE NoFlag
-TRecvRet == Step("recv_ret") /\ UNCHANGED <<avars, scen, obs, how, relR, relW, lastFault, obsAtCall, incall, faulted, final, super>> /\
+TRecvRet == Step("recv_ret") /\ UNCHANGED <<avars, scen, obs, how, relR, relW, lastFault, obsAtCall, incall, faulted, final, super, infl>> /\
    IF E.res = "err" THEN
       (IF mayErr # {} THEN mayErr' = mayErr \ {CHOOSE c \in mayErr : TRUE} /\ NoFlag
        ELSE IF \E c \in conn : Pend(c) # <<>> /\ ~WellFormed(stype, Head(Pend(c))) THEN UNCHANGED mayErr /\ NoFlag
        ELSE IF faulted # {} THEN UNCHANGED mayErr /\ Flag("C16/error-repeated:" \o stype \o ":" \o lastFault)
        ELSE UNCHANGED mayErr /\ NoFlag)
    ELSE UNCHANGED mayErr /\ NoFlag
-TSendCall == Step("send_call") /\ UNCHANGED <<avars, scen, obs, how, relR, relW, lastFault, mayErr, faulted, final, super>> /\ NoFlag /\ obsAtCall' = obs /\ incall' = TRUE
-TSendRet == Step("send_ret") /\ UNCHANGED <<avars, scen, obs, how, relR, relW, lastFault, obsAtCall, mayErr, faulted, final, super>> /\ NoFlag /\ incall' = FALSE
+TSendCall == Step("send_call") /\ UNCHANGED <<avars, scen, obs, how, relR, relW, lastFault, mayErr, faulted, final, super, infl>> /\ NoFlag /\ obsAtCall' = obs /\ incall' = TRUE
+TSendRet == Step("send_ret") /\ UNCHANGED <<avars, scen, obs, how, relR, relW, lastFault, obsAtCall, mayErr, faulted, final, super, infl>> /\ NoFlag /\ incall' = FALSE
 \* an application message written to a connection whose end the socket had already observed when the send began
 TWire == Step("wire") /\ UNCHANGED <<avars, scen, lv>> /\
    IF E.k = "msg" /\ incall /\ E.c \in obsAtCall THEN Flag("C16/send-routed-to-dead-peer:" \o stype \o ":" \o how[E.c]) ELSE NoFlag
-TQuiescent == Step("quiescent") /\ UNCHANGED <<avars, scen, obs, how, relR, relW, lastFault, obsAtCall, incall, mayErr, faulted, super>> /\ final' = (final \/ Fld(E, "final", FALSE)) /\
+TQuiescent == Step("quiescent") /\ UNCHANGED <<avars, scen, obs, how, relR, relW, lastFault, obsAtCall, incall, mayErr, faulted, super, infl>> /\ final' = (final \/ Fld(E, "final", FALSE)) /\
    IF Fld(E, "pending", "none") \in {"send", "sub"} THEN NoFlag
    ELSE IF \E c \in obs : c \notin relW THEN LET c == CHOOSE x \in obs : x \notin relW IN Flag("C16/not-released:w:" \o stype \o ":" \o how[c])
    ELSE IF \E c \in obs : c \notin relR THEN LET c == CHOOSE x \in obs : x \notin relR IN Flag("C16/not-released:r:" \o stype \o ":" \o how[c])
@@ -53,7 +58,8 @@ TQuiescent == Step("quiescent") /\ UNCHANGED <<avars, scen, obs, how, relR, relW
 TPanic == Step("panic") /\ UNCHANGED <<avars, scen, lv>> /\ Flag("C03/panic")
 \* a connection announces the identity of an older one: from the moment its registration starts the older one may be let go
 TAttachCall == Step("attach_call") /\ UNCHANGED <<avars, scen, obs, how, relR, relW, lastFault, obsAtCall, incall, mayErr, faulted, final>> /\ NoFlag /\
-   super' = (IF Has(E, "announced") THEN super \cup {c \in conn : ident[c] = E.announced} ELSE super)
+   super' = (IF Has(E, "announced") THEN super \cup {c \in conn : ident[c] = E.announced} ELSE super) /\
+   infl' = (IF Has(E, "announced") THEN infl \cup {<<E.c, E.announced>>} ELSE infl)
 \* a message the socket should have written to a connection by now has not arrived there
 TExpectWire == Step("expect_wire") /\ UNCHANGED <<avars, scen, lv>> /\ (IF E.ok THEN NoFlag ELSE Flag("C16/healthy-connection-not-served:" \o stype))
 Ignored == {"peer_part", "attach_pending", "recv_call", "recv_pending", "recv_dropped", "send_pending", "send_dropped", "end", "sub_call", "sub_ret",
